@@ -136,6 +136,15 @@ Definition transpose_m (copy : L -> mems -> mems -> mems) (cur : L) (steps : lis
          else let x := redirect_m cur steps src dst in (fst x, snd x, buf)
   end.
 
+(** with a spare buffer the source array is returned as it was given: every cell, on every process *)
+Lemma transpose_m_src_same copy cur steps src dst buf :
+  fst (fst (transpose_m copy cur steps true src dst buf)) = src.
+Proof. unfold transpose_m. destruct steps; reflexivity. Qed.
+(** and the spare buffer is not an argument of a transpose without one *)
+Lemma transpose_m_buf_same copy cur steps src dst buf :
+  snd (transpose_m copy cur steps false src dst buf) = buf.
+Proof. unfold transpose_m. destruct steps; reflexivity. Qed.
+
 Lemma pingpong_fr : forall steps cur f t, route_ok cur steps = true -> Wm f -> Wm t ->
   if Nat.even (length steps)
   then fr E f (fst (pingpong_m cur steps f t)) /\ fr E t (snd (pingpong_m cur steps f t))
